@@ -44,7 +44,7 @@ def make_rbm(it, clsname, prefix="rbm"):
     return objv
 
 
-def make_state(it, clsname, with_module=None):
+def make_state(it, clsname, with_module=None, extra_kwargs=None):
     cls = it.program.cls(clsname)
     init = cls.find_method("__init__")
     kwargs = {"num_visible": dimval("nv"), "num_hidden": dimval("nh"), "gpu": VConst(False)}
@@ -52,6 +52,8 @@ def make_state(it, clsname, with_module=None):
         kwargs["num_aux"] = dimval("na")
     if with_module is not None:
         kwargs = {"num_visible": dimval("nv_ignored"), "gpu": VConst(False), "module": with_module}
+    if extra_kwargs:
+        kwargs.update(extra_kwargs)
     objv = it.instantiate(cls, [], kwargs, None)
     objv.inst.origin = "self"
     nets = state_networks(it, objv)
